@@ -78,6 +78,19 @@ def _run_json(build, module, argv, timeout):
     for line in p.stdout.splitlines():
         if line.startswith("RESULT "):
             last = line[7:]
+    if last is None and p.returncode < 0:
+        # the stand-in (pure Python) was killed by a signal: native code crashed on an input the stand-in generated
+        import signal as _sg
+        try:
+            nm = _sg.Signals(-p.returncode).name
+        except ValueError:
+            nm = str(-p.returncode)
+        k = (p.stderr or "").find("ERROR: AddressSanitizer")
+        return {"evaluations": 0, "distinct_nontrivial": 0, "scope": "stopped by signal %s" % nm, "samples": [],
+                "violations": [{"clause": "the library does not crash on the inputs the stand-in generates",
+                                "input": {"standin": module, "argv": argv, "last_output": p.stdout[-500:]},
+                                "observed": "stand-in process killed by %s; %s" % (nm, (p.stderr or "")[k if k >= 0 else -1500:][:4000]),
+                                "expected": "a RESULT line"}]}
     if last is None:
         if getattr(build, "asan", False) and "AddressSanitizer" in (p.stderr or ""):
             # the stand-in itself was stopped by AddressSanitizer: a memory error inside the C library on an input the
